@@ -16,6 +16,8 @@ def plan(tier, seed):
         for ctx in range(1, len(P.CONTEXTS)):
             conds += t1_conds("c03", "full", 2, 4, ctx=ctx, timeout=600)
         bounds = {"T2": "every command, K=4", "T1": "full N=3; reduced N=6; contexts x full N=2"}
+    conds += t4_conds("c03", timeout=280 if q else 1500, quick=q)
+    bounds["T4"] = T4_BOUND
     conds += twins("c03")
     meta = dict(functions=PARSER_FUNCS + ["sievelib.commands.Command.walk (via arguments/extra_arguments/children)"],
                 bounds=bounds, outside=["scripts beyond the token bounds", "inputs that fill a tag slot twice"],
